@@ -100,7 +100,6 @@ Definition g_enum (usenum : bool) : schema -> bool := all_sub (fun s => g_enum_h
 
 Definition here_ok (rc : string -> bool) (s : schema) : bool :=
   g_empty_here s && g_excl_here (core_of s) && g_small_here (core_of s) &&
-  g_pattern_here rc (core_of s) &&
   match s with Sch _ _ _ _ _ _ props _ => nodup_str (map fst props) end.
 Definition g_all (rc : string -> bool) : schema -> bool := all_sub (here_ok rc).
 
